@@ -6,7 +6,9 @@
 (* conditions, tuples, call functions ...; maps: up to two (thorough:      *)
 (* three) entries whose keys are names, Variables, Subscript or Lookup     *)
 (* nodes and whose values may mention other keys (swaps, chains, self      *)
-(* reference, a name and the Variable of the same name) - and checks ON    *)
+(* reference, a name and the Variable of the same name; round 5: a        *)
+(* non-key Subscript / Lookup that the other entries turn INTO a compound  *)
+(* key of the same map) - and checks ON                                    *)
 (* THE MODEL, for every pair:                                              *)
 (*   Lemma          the substitution lemma for Subst (M-layer, all envs)   *)
 (*   AggLemma       its aggregate-update form for keys t[j]                *)
@@ -204,6 +206,59 @@ KindSigmas == { << NX(v) >> : v \in KindVals } \cup
 Nest == \/ tree \in NestSkel(A, L, M, K2) /\ sg \in SigmasQ \cup KindSigmas /\ fuel = 0
         \/ tree \in Skel(x, x, y, y) \cup NestSkel(x, x, y, x) /\ sg \in KindSigmas /\ fuel = 0
 
+\* ---- round 5: a compound node that is NOT a key but BECOMES one by the other replacements ----
+\* The mapper consults its map for Variables, Subscripts and Lookups.  "Simultaneous, single pass"
+\* has to hold for every one of these key kinds: a compound node of the ORIGINAL that is no key is
+\* traversed, and what the traversal builds is not looked up again - even when the replacements made
+\* in its aggregate / index turn it into (something == to) a compound key of the same map.
+\* TLC chooses: the compound key K (t[x], t[1], o.p), which child position(s) of K the other
+\* replacement produces, what is replaced by that child (a variable - given by name or as a
+\* Variable - or another compound key), the value K is mapped to (a constant, or an expression that
+\* mentions K itself and further keys), and the place of the near-key K' in the tree (alone, next to
+\* the real key K, below / above Subscript and Lookup nodes, under the other node kinds).
+KSX == B("Sub", tt, x)
+CompKeys == { KSX, S1, LP }
+Poss(KK) == IF KK.t = "Sub" THEN {"a", "b"} ELSE {"a"}
+ChildAt(KK, pos) == IF pos = "a" THEN KK.a ELSE KK.b
+PutAt(KK, pos, w) == IF pos = "a" THEN [KK EXCEPT !.a = w] ELSE [KK EXCEPT !.b = w]
+PreImg(KK, pos) == (IF pos = "b" THEN { y, z, LP }
+                    ELSE IF KK.t = "Sub" THEN { uu, z } ELSE { uu, V("o2"), S1 }) \ { ChildAt(KK, pos) }
+Forms(w) == IF w.t = "Var" THEN {"name", "expr"} ELSE {"expr"}
+EntryOf(w, form, v) == IF form = "name" THEN NameEntry(w.name, v) ELSE ExprEntry(w, v)
+QVals(KK) == { KI(7), N("Sum", << KK, y >>) }
+\* [sg: the map, nk: the near-key, k: the key it must not be taken for, w: what is replaced]
+OvFor(KK, pos, w) ==
+    { [sg |-> << EntryOf(w, f, ChildAt(KK, pos)), ExprEntry(KK, q) >>,
+       nk |-> PutAt(KK, pos, w), k |-> KK, w |-> w] : f \in Forms(w), q \in QVals(KK) }
+OvOne == UNION { UNION { UNION { OvFor(KK, pos, w) : w \in PreImg(KK, pos) } : pos \in Poss(KK) }
+                 : KK \in CompKeys }
+\* both child positions at once; the index swapped; the key entry first; an index that is only == to
+\* the key's (t[True] is the key t[1] for a dict, but t[y] is not a key of the original)
+OvMore ==
+    { [sg |-> << EntryOf(uu, fa, tt), EntryOf(y, fb, KK.b), ExprEntry(KK, q) >>,
+       nk |-> B("Sub", uu, y), k |-> KK, w |-> y]
+      : KK \in {KSX, S1}, fa \in {"name", "expr"}, fb \in {"name"}, q \in {KI(7)} } \cup
+    { [sg |-> << ExprEntry(KSX, q), EntryOf(x, f, y), EntryOf(y, f, x) >>,
+       nk |-> B("Sub", tt, y), k |-> KSX, w |-> y] : f \in {"name", "expr"}, q \in QVals(KSX) } \cup
+    { [sg |-> << ExprEntry(KK, KI(7)), NameEntry(w.name, ChildAt(KK, pos)) >>,
+       nk |-> PutAt(KK, pos, w), k |-> KK, w |-> w]
+      : KK \in CompKeys, pos \in {"a"}, w \in {uu} } \cup
+    { [sg |-> << NY(TRUEK), ES1(q) >>, nk |-> B("Sub", tt, y), k |-> S1, w |-> y] : q \in QVals(S1) } \cup
+    { [sg |-> << ES1(oo), ELP(q), NY(KI(1)) >>, nk |-> Look(B("Sub", tt, y), "p"), k |-> LP, w |-> y]
+      : q \in {KI(7)} }
+OvChoices == OvOne \cup OvMore
+OvSigmas == { o.sg : o \in OvChoices }
+\* where the near-key NK stands (KK: the real key, W: what is replaced below NK)
+OvSkelQ(NK, KK, W) ==
+    { NK, N("Sum", << KK, NK >>), N("Sum", << NK, N("Product", << KI(10), KK >>) >>),
+      N("Tup", << NK, W, KK >>), B("Sub", NK, KI(0)), B("Sub", tt, NK), Look(NK, "p"),
+      Call(ff, << NK >>), CallKw(ff, << KK >>, << KwArg("k1", NK) >>), IfE(bb, NK, KK),
+      CSE0(NK), B("Power", NK, KI(2)), N("Sum", << NK, NK, W >>),
+      B("Sub", tt, N("Slice", << NK, NoneE >>)) }
+OvSkel(NK, KK, W) == IF Tier = "quick" THEN OvSkelQ(NK, KK, W)
+                     ELSE OvSkelQ(NK, KK, W) \cup Skel(NK, NK, y, KK)
+Overlap == \E o \in OvChoices : sg = o.sg /\ tree \in OvSkel(o.nk, o.k, o.w) /\ fuel = 0
+
 \* ---- the state machine that enumerates ------------------------------------------------
 RandSkel == { s \in Skel(Rn, Rn, Rn, Rn) : s.t \notin {"Subst", "Deriv"} } \cup
             { N("Sum", << Rn, Rn, Rn >>), Call(Rn, << Rn, Rn >>), IfE(Rn, Rn, Rn),
@@ -212,11 +267,11 @@ RandSkel == { s \in Skel(Rn, Rn, Rn, Rn) : s.t \notin {"Subst", "Deriv"} } \cup
 RandPool == IF fuel > 0 THEN RandSkel \cup LeavesT ELSE LeavesT \cup D1Q \cup D1T
 
 \* exh mode: fuel only selects the pools (0: small, 1: big)
-Init == IF Mode = "exh" /\ Tier = "quick" THEN ((tree \in Roots(FALSE) /\ sg \in SigmasQ /\ fuel = 0) \/ Nest)
+Init == IF Mode = "exh" /\ Tier = "quick" THEN ((tree \in Roots(FALSE) /\ sg \in SigmasQ /\ fuel = 0) \/ Nest \/ Overlap)
         ELSE IF Mode = "exh" THEN \/ tree \in Roots(FALSE) /\ sg \in SigmasT /\ fuel = 0
                                   \/ tree \in Roots(TRUE) /\ sg \in SigmasBig /\ fuel = 1
-                                  \/ Nest
-        ELSE tree = Rn /\ sg \in SigmasT \cup KindSigmas /\ fuel \in {2, 3, 4, 5}
+                                  \/ Nest \/ Overlap
+        ELSE tree = Rn /\ sg \in SigmasT \cup KindSigmas \cup OvSigmas /\ fuel \in {2, 3, 4, 5}
 Next == /\ NHoles(tree) > 0
         /\ UNCHANGED sg
         /\ IF Mode = "exh"
@@ -237,6 +292,10 @@ SubstB(e, s) ==
     IN IF Bug = "innermost" /\ e.t \in {"Sub", "Look"}
        THEN (IF HitB(mapped, s) # 0 THEN s[HitB(mapped, s)].val ELSE mapped)
        ELSE IF h # 0 THEN (IF Bug = "recursive" THEN Subst(s[h].val, s) ELSE s[h].val)
+       \* a compound node that is no key is rebuilt and then looked up AGAIN ("the entry may only be
+       \* recognisable once its index is known"): the output of the substitution is substituted
+       ELSE IF Bug = "relookup" /\ e.t \in {"Sub", "Look"} /\ mapped # e /\ HitB(mapped, s) # 0
+            THEN s[HitB(mapped, s)].val
        ELSE IF Bug = "skipkw" /\ e.t = "CallKw" THEN [mapped EXCEPT !.kw = e.kw]
        \* "k(k(a)) is a" applied to every unary kind when the node is rebuilt (exact for ~, wrong for not)
        ELSE IF Bug = "collapse" /\ e.t \in UnKinds /\ mapped # e /\ mapped.a.t = e.t THEN mapped.a.a
